@@ -178,7 +178,21 @@ func channelSend(L *LState) int {
 	rch := checkChannel(L, 1)
 	v := checkGoroutineSafe(L, 2)
 	verifChanPre(L, 0, rch)
-	rch.Send(reflect.ValueOf(v))
+	if L.ctx != nil {
+		// a send nobody receives must not outlive the context
+		cases := []reflect.SelectCase{{
+			Dir:  reflect.SelectRecv,
+			Chan: reflect.ValueOf(L.ctx.Done()),
+			Send: reflect.ValueOf(nil),
+		}, {
+			Dir:  reflect.SelectSend,
+			Chan: rch,
+			Send: reflect.ValueOf(v),
+		}}
+		reflect.Select(cases)
+	} else {
+		rch.Send(reflect.ValueOf(v))
+	}
 	verifChanPost(L, 0, 0, true)
 	return 0
 }
